@@ -30,11 +30,19 @@ impl Substitution {
     pub fn apply(&self, ty: &InferType) -> InferType {
         match ty {
             InferType::Var(id) => {
-                if let Some(bound) = self.bindings.get(id) {
-                    self.apply(bound)
-                } else {
-                    ty.clone()
+                // Variable-to-variable bindings form chains as long as the program (every
+                // call of an unannotated function adds a link), so they are followed in a
+                // loop; only a type constructor is entered recursively. The occurs check
+                // keeps a chain from closing; the step bound is a second line of defence.
+                let mut id = *id;
+                for _ in 0..=self.bindings.len() {
+                    match self.bindings.get(&id) {
+                        Some(InferType::Var(next)) => id = *next,
+                        Some(bound) => return self.apply(bound),
+                        None => break,
+                    }
                 }
+                InferType::Var(id)
             }
             InferType::Function { params, ret } => InferType::Function {
                 params: params.iter().map(|p| self.apply(p)).collect(),
